@@ -153,7 +153,6 @@ func RegexpQuote(b io.Writer, str string) {
 }
 
 func PuppetQuote(w io.Writer, str string) {
-	r := NewStringReader(str)
 	b, ok := w.(*bytes.Buffer)
 	if !ok {
 		b = bytes.NewBufferString(``)
@@ -164,40 +163,27 @@ func PuppetQuote(w io.Writer, str string) {
 	begin := b.Len()
 
 	WriteByte(b, '\'')
-	escaped := false
-	for c := r.Next(); c != 0; c = r.Next() {
+	for _, c := range str {
 		if c < 0x20 {
-			r.Rewind()
 			b.Truncate(begin)
-			puppetDoubleQuote(r, b)
+			puppetDoubleQuote(str, b)
 			return
 		}
-
-		if escaped {
-			WriteByte(b, '\\')
-			WriteRune(b, c)
-			escaped = false
-			continue
-		}
-
 		switch c {
 		case '\'':
 			WriteString(b, `\'`)
 		case '\\':
-			escaped = true
+			WriteString(b, `\\`)
 		default:
 			WriteRune(b, c)
 		}
 	}
-	if escaped {
-		WriteByte(b, '\\')
-	}
 	WriteByte(b, '\'')
 }
 
-func puppetDoubleQuote(r *StringReader, b io.Writer) {
+func puppetDoubleQuote(str string, b io.Writer) {
 	WriteByte(b, '"')
-	for c := r.Next(); c != 0; c = r.Next() {
+	for _, c := range str {
 		switch c {
 		case '\t':
 			WriteString(b, `\t`)
